@@ -90,6 +90,10 @@ func (e *Exec) builtin(fr *frame, st *State, b *ssa.Builtin, c *ssa.CallCommon, 
 	case "ssa:deferstack":
 		return NilAddr
 	case "recover":
+		if e.recoverNondet && e.spec == 0 {
+			// verifying a function literal on its own: it may run after a panic or not
+			return e.freshVal(st, "recovered", types.NewInterfaceType(nil, nil))
+		}
 		if e.spec == 0 {
 			unsupported("recover() in %s", fr.fn)
 		}
